@@ -270,33 +270,38 @@ def check_df_wrapper(ctx, fname, callee, rule, extra_args=(), shift=False):
             own = [e for e in log if e[0] == "df"]
             if own:
                 ctx.violated(rule, c + "[caller frame]", f"the caller's DataFrame is modified (df[{own[0][1]!r}] = ...)", where); continue
+            leaves = [r]
             if isinstance(r, PV):
-                # a zero shift returns the frame itself; the generic case is the other branch
-                cands = [l for pth, l in pv_leaves(r) if all(not (getattr(cd, "eq", None) is not None and pol) for cd, pol in pth)]
-                if len(cands) == 1: r = cands[0]
-            if not (isinstance(r, DF) and r.name == "df.copy"):
-                ctx.ob(rule, c + "[result]", VIOLATED if (isinstance(r, Mismatch) or not is_opaque(r)) else UNKNOWN,
-                       (r.why if isinstance(r, Mismatch) else f"result is {r!r}, not the working copy")[:400], where); continue
-            sets = dict((k, v) for k, v in r.sets)
-            bad = None
-            for col in want_cols:
-                name = col if inplace else None
-                keys = [k for k in sets if (k == col if inplace else (isinstance(k, str) and k.startswith(col) and k != col))]
-                if len(keys) != 1: bad = f"column {col!r}: {len(keys)} result columns written ({sorted(map(str, sets))})"; break
-                v = sets[keys[0]]
-                if not (isinstance(v, Marker) and v.kind == "worked"):
-                    bad = f"column {keys[0]!r} receives {v!r}: the worker's output is converted or replaced before it is stored"; break
-                d = v.info["data"]
-                if not (isinstance(d, ArrParam) and d.name == "col_" + col):
-                    bad = f"column {keys[0]!r} is computed from {d!r}, not from column {col!r}"; break
-                if shift:
-                    a0 = to_x(v.info["args"][0]) if v.info["args"] else None
-                    if a0 is None or not a0.eq(X.var("seconds") * X.var("fs")):
-                        bad = f"column {col!r} is shifted by {v.info['args'][0] if v.info['args'] else None!r} samples, not by seconds*fs"; break
-            extra = [k for k in sets if not any((k == cl if inplace else str(k).startswith(cl)) for cl in want_cols)]
-            if bad is None and extra: bad = f"columns {extra} are written although they were not selected / are not numeric"
-            if bad is None and len(calls) != len(want_cols): bad = f"worker applied {len(calls)} times for {len(want_cols)} selected numeric columns"
-            (ctx.holds if bad is None else ctx.violated)(rule, c, f"{callee} applied to each of {want_cols} on a copy" if bad is None else bad, where)
+                # a zero shift returns the frame itself; the generic case is every other branch (helpers may fork on the kind of frame)
+                leaves = [l for pth, l in pv_leaves(r) if all(not (getattr(cd, "eq", None) is not None and pol) for cd, pol in pth)] or [l for _, l in pv_leaves(r)]
+
+            def judge(r):
+                if not (isinstance(r, DF) and r.name == "df.copy"):
+                    return (VIOLATED if (isinstance(r, Mismatch) or (not is_opaque(r) and not isinstance(r, PV))) else UNKNOWN,
+                            (r.why if isinstance(r, Mismatch) else f"result is {r!r}, not the working copy")[:400], "[result]")
+                sets = dict((k, v) for k, v in r.sets)
+                bad = None
+                for col in want_cols:
+                    keys = [k for k in sets if (k == col if inplace else (isinstance(k, str) and k.startswith(col) and k != col))]
+                    if len(keys) != 1: bad = f"column {col!r}: {len(keys)} result columns written ({sorted(map(str, sets))})"; break
+                    v = sets[keys[0]]
+                    if not (isinstance(v, Marker) and v.kind == "worked"):
+                        if is_opaque(v): return UNKNOWN, f"column {keys[0]!r} receives {v!r}", ""
+                        bad = f"column {keys[0]!r} receives {v!r}: the worker's output is converted or replaced before it is stored"; break
+                    d = v.info["data"]
+                    if not (isinstance(d, ArrParam) and d.name == "col_" + col):
+                        bad = f"column {keys[0]!r} is computed from {d!r}, not from column {col!r}"; break
+                    if shift:
+                        a0 = to_x(v.info["args"][0]) if v.info["args"] else None
+                        if a0 is None or not a0.eq(X.var("seconds") * X.var("fs")):
+                            bad = f"column {col!r} is shifted by {v.info['args'][0] if v.info['args'] else None!r} samples, not by seconds*fs"; break
+                extra = [k for k in sets if not any((k == cl if inplace else str(k).startswith(cl)) for cl in want_cols)]
+                if bad is None and extra: bad = f"columns {extra} are written although they were not selected / are not numeric"
+                if bad is None and len(calls) != len(want_cols): bad = f"worker applied {len(calls)} times for {len(want_cols)} selected numeric columns"
+                return (HOLDS if bad is None else VIOLATED), (f"{callee} applied to each of {want_cols} on a copy" if bad is None else bad), ""
+            verdicts = [judge(l) for l in leaves]
+            worst = next((v for v in verdicts if v[0] == VIOLATED), None) or next((v for v in verdicts if v[0] == UNKNOWN), None) or verdicts[0]
+            ctx.ob(rule, c + worst[2], worst[0], worst[1], where)
 
 
 def check_integral_rms(ctx, rule="R3-band-rms-is-trapezoid-of-asd-squared"):
